@@ -108,7 +108,7 @@ func genKeyCase(r *vh.Rng) Case {
 	for i := 0; i < n; i++ {
 		k := keySvc{name: names[i], hasItem: i < 2 || r.Chance(75)}
 		if k.hasItem {
-			k.root = !r.Chance(4)
+			k.root = !r.Chance(22) // a holder that does not federate the object: refused whenever another service federates it
 			k.exposes = subset(r, keyPool, 60, false)
 			if !has(k.exposes, "id") && r.Chance(85) {
 				k.exposes = append([]string{"id"}, k.exposes...)
@@ -440,4 +440,46 @@ func firstLineOf(s string) string {
 		return s[:i]
 	}
 	return s
+}
+
+// unfederatedHolders lists (object, service) where the service has the object without _federation although
+// another service federates it (validateFederatedObjects, schema.go:78-118).
+func unfederatedHolders(perSvc map[string]mergeOut, merged *Schema) (out []string, comparable bool) {
+	var names []string
+	for n := range perSvc {
+		if !perSvc[n].ok {
+			return nil, false
+		}
+		names = append(names, n)
+	}
+	sort.Strings(names)
+	for _, mt := range merged.Types {
+		if mt.Name == "Query" || mt.Name == "Mutation" {
+			continue
+		}
+		fed := false
+		var plain []string
+		for _, n := range names {
+			for _, t := range perSvc[n].s.Types {
+				if t.Name != mt.Name {
+					continue
+				}
+				has := false
+				for _, f := range t.Fields {
+					has = has || f.Name == "_federation"
+				}
+				if has {
+					fed = true
+				} else {
+					plain = append(plain, n)
+				}
+			}
+		}
+		if fed {
+			for _, n := range plain {
+				out = append(out, mt.Name+" on "+n)
+			}
+		}
+	}
+	return out, true
 }
